@@ -1,10 +1,10 @@
 SPECIFICATION Spec
 CONSTANTS
-  MaxLen = 9
+  MaxLen = 8
   MaxDepth = 3
   Conds = {"T", "F"}
   Kinds = {"if", "elif", "ifdef", "elifndef", "else", "endif", "text", "def1"}
-  MinDump = 9
+  MinDump = 8
 INVARIANT Refines
 INVARIANT ClosedNormal
 INVARIANT AtMostOneGroup
